@@ -575,7 +575,13 @@ func (op *ShellOperator) taskHandleHookRun(t task.Task) queue.TaskResult {
 			// so combine only tasks with the same allowFailure: binding contexts
 			// of a binding that does not allow failure should not be dropped.
 			stopCombineFn := func(tsk task.Task) bool {
-				return task_metadata.HookMetadataAccessor(tsk).AllowFailure != hookMeta.AllowFailure
+				tskMeta := task_metadata.HookMetadataAccessor(tsk)
+				// Synchronization of a binding with "executeHookOnSynchronization: false"
+				// should not be delivered to the hook as a part of another task.
+				if tskMeta.IsSynchronization() && !tskMeta.ExecuteOnSynchronization {
+					return true
+				}
+				return tskMeta.AllowFailure != hookMeta.AllowFailure
 			}
 			combineResult := op.combineBindingContextForHook(op.TaskQueues, op.TaskQueues.GetByName(t.GetQueueName()), t, stopCombineFn)
 			if combineResult != nil {
